@@ -11,5 +11,6 @@ INVARIANT DeliveredInOrderOnce
 INVARIANT SetupFirst
 INVARIANT InterleaveOnlyOtherStreams
 INVARIANT CacheSingleFrame
+INVARIANT WrittenOnce
 PROPERTY EventuallyDrained
 PROPERTY AllDelivered
